@@ -128,7 +128,12 @@ func (node *Node) processUnconfirmedTx(ctx context.Context, tx handlers.TxData) 
 		logger.Info(ctx, "Updating tx state : %s", hash)
 	}
 
-	txState.State.Safe = tx.Safe || newlySafe
+	if txState.State.UnSafe || txState.State.Cancelled {
+		// A tx that was already reported unsafe or cancelled can't become safe again.
+		txState.State.Safe = false
+	} else {
+		txState.State.Safe = tx.Safe || newlySafe
+	}
 	if txState.State.MerkleProof == nil {
 		txState.State.UnconfirmedDepth = 1
 	}
